@@ -36,6 +36,10 @@ func extraMode(mode string, n int, r *rand.Rand) bool {
 		for i := 0; i < n; i++ {
 			emit(genE2ETail(r))
 		}
+	case "sweep":
+		for _, x := range genSweep(r, n > 1) {
+			emit(x)
+		}
 	case "grid12":
 		for _, x := range grid12() {
 			emit(x)
